@@ -16,38 +16,33 @@ ALPHABET = list(range(0, 128)) + [0xB5, 0x3BC, 0x660, 0x2028, 0xFF10]
 
 
 def table(prog, fn):
+    """{c: (consumed, counted as a digit, unambiguous)} for a digit scanner: the scanner is run on the input `c` followed
+    by NUL characters (first() = c until the first bump, NUL afterwards); consumed = a bump happened, counted = the
+    scanner's result (its `has_digits`).  Helpers and predicate closures of the lexer are looked into, so that two
+    scanners sharing one parameterised body give the same table as two hand-written loops."""
     b = prog.body(fn)
     if b is None:
         return None
-    hd = [i for i, l in enumerate(b.locals) if l.get("name") == "has_digits"]
-    if len(hd) != 1:
-        return None
-    hd = hd[0]
-    setters = set()
-    for bi, si, st in b.stmts_with_pos():
-        if st["k"] == "assign" and st["lhs"]["l"] == hd and not st["lhs"]["p"]:
-            rv = st["rv"]
-            if rv["k"] == "use" and rv["op"].get("k") == "const" and str(rv["op"].get("int", rv["op"].get("bits"))) == "1":
-                setters.add(bi)
-    bumps = {bi for bi, t in b.calls() if (b.callee_of(t) or "").endswith("Cursor::bump")}
     out = {}
     for c in ALPHABET:
         def model(se, st, t, cal, args, site, c=c):
+            nb = sum(1 for nm, a, bb in st.calls if nm.endswith("Cursor::bump"))
             if cal.endswith("Cursor::first"):
-                return ("c", "char", c if site[-1][1] == 0 else 0)
+                return ("c", "char", c if nb == 0 else 0)
             if cal.endswith("Cursor::bump"):
-                return ("adt", "std::option::Option::Some", (("c", "char", c),))
+                return ("adt", "std::option::Option::Some", (("c", "char", c if nb == 0 else 0),))
             return None
-        ps = [p for p in SymExec(prog, b, max_visits=2, max_paths=200, call_model=model).paths()]
-        cons, sets = set(), set()
-        for p in ps:
-            # only the first iteration matters: blocks visited before the second evaluation of first()
-            tr = p.trace
-            firsts = [i for i, x in enumerate(tr) if b.blocks[x].term["k"] == "call" and (b.callee_of(b.blocks[x].term) or "").endswith("Cursor::first")]
-            upto = tr[:firsts[1]] if len(firsts) > 1 else tr
-            cons.add(any(x in bumps for x in upto))
-            sets.add(any(x in setters for x in upto))
-        out[c] = (cons == {True}, sets == {True}, len(cons) == 1 and len(sets) == 1)
+        cons, sets, cut = set(), set(), False
+        for p in SymExec(prog, b, max_visits=4, max_paths=400, call_model=model, inline=lambda k: _lexer_helpers(k) or "{closure" in k).paths():
+            if "__diverged__" in p.env:
+                continue
+            if "__cut__" in p.env:
+                cut = True
+                continue
+            r = p.env.get(0)
+            cons.add(any(nm.endswith("Cursor::bump") for nm, a, bb in p.calls))
+            sets.add(bool(r[2]) if isinstance(r, tuple) and r[0] == "c" else "?")
+        out[c] = (cons == {True}, sets == {True}, len(cons) == 1 and len(sets) == 1 and "?" not in sets and not (cut and not cons))
     return out
 
 
